@@ -547,7 +547,7 @@ pub const PROP: Prop = Prop {
     id: "C20",
     level: "exploration",
     runs_quick: 20_000,
-    runs_thorough: 500_000,
+    runs_thorough: 300_000,
     generate,
     execute,
     shrink,
